@@ -245,14 +245,14 @@ for k1 in ORDER:
                 body += '    reach!(matches!(out, Out::Tag(_)));\n'
             if o == 'Modulo':
                 body += '    reach!(out == Out::OtherError);\n'
-        out.append('\n//# harness binary_%s_%s tier=quick label=complete props=C12,C06 fn=%s timeout=600\nharness!(binary_%s_%s, 1, {\n%s});\n' % (k1, k2, FN, k1, k2, body))
+        out.append('\n//# harness binary_%s_%s tier=quick tier.C06=thorough label=complete props=C12,C06 fn=%s timeout=600\nharness!(binary_%s_%s, 1, {\n%s});\n' % (k1, k2, FN, k1, k2, body))
         body = decl
         for o in ('And', 'Or'):
             body += ('    let out = vm_binary(Operator::%s, %s, %s);\n' % (o, K[k1]['ctor'].format(n='a'), K[k2]['ctor'].format(n='b')) +
                      '    check(%s, %s, Operator::%s, out, false);\n' % (K[k1]['q'], K[k2]['q'], o) +
                      '    assert!(cast_binary_op_q(%s, %s, Operator::%s).is_some(), "numeric operands are accepted for every operator");\n' % (K[k1]['q'], K[k2]['q'], o) +
                      '    reach!(matches!(out, Out::Tag(_)));\n')
-        out.append('\n//# harness logical_%s_%s tier=quick label=complete props=C12,C06 fn=%s timeout=600\nharness!(logical_%s_%s, 18, {\n%s});\n' % (k1, k2, FN, k1, k2, body))
+        out.append('\n//# harness logical_%s_%s tier=quick tier.C06=thorough label=complete props=C12,C06 fn=%s timeout=600\nharness!(logical_%s_%s, 18, {\n%s});\n' % (k1, k2, FN, k1, k2, body))
         # F5
         fbody = (decl + '    let out = vm_binary(Operator::Divide, %s, %s);\n' % (K[k1]['ctor'].format(n='a'), K[k2]['ctor'].format(n='b')) +
                  '    check(%s, %s, Operator::Divide, out, false);\n' % (K[k1]['q'], K[k2]['q']))
